@@ -36,11 +36,21 @@ pub struct Bcast {
     /// destructor that panics itself: `broadcast` then unwinds instead of
     /// returning — still only after every call has finished.
     pub payload_bomb: bool,
+    /// With `PoolScn::lanes > 1`: the concurrent caller thread that issues
+    /// this broadcast (broadcasts of one lane are issued in order).
+    pub lane: u8,
 }
 
 #[derive(Clone, Debug, PartialEq, Eq)]
 pub struct PoolScn {
     pub broadcasts: Vec<Bcast>,
+    /// 1: the broadcasts are issued one after the other (by the main thread
+    /// or by helper threads). 2..: that many caller threads use the pool *at
+    /// the same time*, each issuing the broadcasts of its lane in order
+    /// ("Invoking `broadcast` from two threads will cause one thread to wait
+    /// for the other to finish", pool.rs) — every clause of C06 / C07 is
+    /// stated per broadcast and must hold for each of them.
+    pub lanes: u8,
     /// `(tid, k)`: the k-th park call of `tid` returns spuriously.
     pub spurious_parks: Vec<(usize, u32)>,
     /// Global indices of `compare_exchange_weak` calls that fail spuriously
@@ -81,11 +91,9 @@ pub struct FrameLiveness {
 
 #[derive(Default)]
 struct FrameSt {
-    /// Current broadcast and the thread that issued it.
-    cur: u32,
-    caller: usize,
-    n: u32,
-    ended: u32,
+    /// Broadcasts in progress: `j -> (calling thread, n, finished calls)`.
+    /// More than one only with concurrent callers.
+    open: std::collections::BTreeMap<u32, (usize, u32, u32)>,
     /// Per broadcast: has the caller come back from it?
     returned: Vec<bool>,
     /// Per broadcast: the part of the caller's stack that holds the frames of
@@ -113,6 +121,11 @@ impl FrameSt {
         self.grow(j);
         self.returned[j as usize] = true;
         self.alive_at_return[j as usize] = self.started;
+        self.open.remove(&j);
+    }
+    /// The broadcast in progress that thread `t` issued, if any.
+    fn open_of(&self, t: usize) -> Option<(u32, u32, u32)> {
+        self.open.iter().find(|(_, o)| o.0 == t).map(|(j, o)| (*j, o.1, o.2))
     }
 }
 
@@ -140,48 +153,41 @@ impl dsim::Monitor for FrameLiveness {
         // through the pool's own handling of the caller's payload): a way of
         // coming back. Judged at its first operation during unwinding, before
         // anything else runs.
-        if (e.unwinding || matches!(e.kind, Ev::ThreadPanic))
-            && t == st.caller
-            && !matches!(e.kind, Ev::User(_))
-            && st.returned.get(st.cur as usize) == Some(&false)
-            && !st.returned.is_empty()
-        {
-            let cur = st.cur;
-            if st.ended == st.n + 1 {
-                st.mark_returned(cur);
-                return None;
+        if (e.unwinding || matches!(e.kind, Ev::ThreadPanic)) && !matches!(e.kind, Ev::User(_)) {
+            if let Some((cur, n, ended)) = st.open_of(t) {
+                if ended == n + 1 {
+                    st.mark_returned(cur);
+                    return None;
+                }
+                return Some(format!(
+                    "[caller_panicked_in_broadcast] broadcast {cur} (n={n}): the calling thread panicked out of broadcast ({ended} of {} task calls finished); workers may still hold a pointer into its frame",
+                    n + 1
+                ));
             }
-            return Some(format!(
-                "[caller_panicked_in_broadcast] broadcast {} (n={}): the calling thread panicked out of broadcast ({} of {} task calls finished); workers may still hold a pointer into its frame",
-                st.cur,
-                st.n,
-                st.ended,
-                st.n + 1
-            ));
         }
         match e.kind {
             Ev::User(UserEv::BroadcastBegin { j, n }) => {
                 st.grow(j);
-                st.cur = j;
-                st.caller = t;
                 st.owner[j as usize] = t;
-                st.n = n;
-                st.ended = 0;
+                st.open.insert(j, (t, n, 0));
             }
-            Ev::User(UserEv::TaskEnd { j, .. } | UserEv::TaskPanic { j, .. }) if j == st.cur => {
-                st.ended += 1
+            Ev::User(UserEv::TaskEnd { j, .. } | UserEv::TaskPanic { j, .. }) => {
+                if let Some(o) = st.open.get_mut(&j) {
+                    o.2 += 1;
+                }
             }
             Ev::User(UserEv::BroadcastReturn { j }) => {
-                let already = st.returned.get(j as usize) == Some(&true);
+                let o = st.open.get(&j).copied();
                 st.mark_returned(j);
                 // Nothing else has run since the caller came back.
-                if !already && j == st.cur && st.ended < st.n + 1 {
-                    return Some(format!(
-                        "[returned_early] broadcast {j} (n={}) returned although {} of its {} task calls had neither returned nor panicked",
-                        st.n,
-                        st.n + 1 - st.ended,
-                        st.n + 1
-                    ));
+                if let Some((_, n, ended)) = o {
+                    if ended < n + 1 {
+                        return Some(format!(
+                            "[returned_early] broadcast {j} (n={n}) returned although {} of its {} task calls had neither returned nor panicked",
+                            n + 1 - ended,
+                            n + 1
+                        ));
+                    }
                 }
             }
             _ => {}
@@ -194,13 +200,9 @@ impl dsim::Monitor for FrameLiveness {
         if st.returned.is_empty() {
             return None;
         }
-        // While a broadcast is in progress, operations on its caller's stack
-        // may belong to it.
-        let cur = st.cur as usize;
-        let open = !st.returned[cur];
         // The most recent broadcasts are enough: older frames on the same
         // stack lie in the same place.
-        for j in (0..st.returned.len()).rev().take(4) {
+        for j in (0..st.returned.len()).rev().take(12) {
             let Some((lo, hi)) = st.region[j] else { continue };
             if !st.returned[j] || addr < lo || addr >= hi {
                 continue;
@@ -211,12 +213,13 @@ impl dsim::Monitor for FrameLiveness {
             if st.alive_at_return[j] & (1u32 << (tid as u32 & 31)) == 0 {
                 continue; // a thread created later: the memory may be its own
             }
-            if open {
-                if let Some((clo, chi)) = st.region[cur] {
-                    if addr >= clo && addr < chi {
-                        continue; // may belong to the broadcast in progress
-                    }
-                }
+            // While a broadcast is in progress, operations on its caller's
+            // stack may belong to it.
+            let belongs_to_open = st.open.keys().any(|&c| {
+                matches!(st.region.get(c as usize), Some(Some((clo, chi))) if addr >= *clo && addr < *chi)
+            });
+            if belongs_to_open {
+                continue;
             }
             return Some(format!(
                 "[touch_after_release] broadcast {j}: thread {tid} is about to operate on memory in the stack frames of that broadcast's call although its caller (thread {}) is already back from it — a stale pointer into the dead frame",
@@ -328,8 +331,12 @@ fn one_broadcast(
     }
     let aux = pool.aux_thread_count();
     let mut o = out.lock().unwrap();
-    o.results.push(results);
-    o.aux_counts.push(aux);
+    if o.results.len() <= j {
+        o.results.resize(j + 1, Vec::new());
+        o.aux_counts.resize(j + 1, usize::MAX);
+    }
+    o.results[j] = results;
+    o.aux_counts[j] = aux;
 }
 
 /// Panic payload whose destructor panics (once, and never while its thread
@@ -374,12 +381,24 @@ impl PoolScn {
             let helper_caller = helper_permille > 0 && rng.chance(helper_permille, 1000);
             let panics: Vec<usize> = panics;
             let payload_bomb = panics.contains(&0) && rng.chance(1, 3);
-            broadcasts.push(Bcast { n, api, panics, helper_caller, payload_bomb });
+            broadcasts.push(Bcast { n, api, panics, helper_caller, payload_bomb, lane: 0 });
+        }
+        // One history in six is issued by two or three caller threads at
+        // the same time.
+        let mut lanes = 1u8;
+        if k >= 2 && !tiny && rng.chance(1, 6) {
+            lanes = rng.range(2, 3.min(k as u64)) as u8;
+            for (j, b) in broadcasts.iter_mut().enumerate() {
+                b.helper_caller = false;
+                // Every lane gets at least one broadcast.
+                b.lane = if j < lanes as usize { j as u8 } else { rng.range(0, lanes as u64 - 1) as u8 };
+            }
         }
         let mut spurious_parks = Vec::new();
         let n_spurious = *rng.pick(&[0u32, 0, 0, 1, 1, 2]);
         for _ in 0..n_spurious {
-            let p = (0usize, rng.range(0, 2 * k as u64) as u32);
+            let t = if lanes > 1 { rng.range(1, lanes as u64) as usize } else { 0 };
+            let p = (t, rng.range(0, 2 * k as u64) as u32);
             if !spurious_parks.contains(&p) {
                 spurious_parks.push(p);
             }
@@ -392,7 +411,21 @@ impl PoolScn {
         } else {
             Vec::new()
         };
-        PoolScn { broadcasts, spurious_parks, cas_weak_fail }
+        PoolScn { broadcasts, lanes, spurious_parks, cas_weak_fail }
+    }
+
+    /// After removing broadcasts: lanes without a broadcast disappear.
+    fn normalise_lanes(&mut self) {
+        if self.lanes <= 1 {
+            return;
+        }
+        let mut used: Vec<u8> = self.broadcasts.iter().map(|b| b.lane).collect();
+        used.sort_unstable();
+        used.dedup();
+        for b in &mut self.broadcasts {
+            b.lane = used.iter().position(|&l| l == b.lane).unwrap() as u8;
+        }
+        self.lanes = used.len().max(1) as u8;
     }
 
     pub fn max_n(&self) -> usize {
@@ -408,7 +441,9 @@ impl PoolScn {
                 "panics": b.panics,
                 "helper_caller": b.helper_caller,
                 "payload_bomb": b.payload_bomb,
+                "lane": b.lane,
             })).collect::<Vec<_>>(),
+            "lanes": self.lanes,
             "spurious_parks": self.spurious_parks.iter().map(|&(t, k)| json!([t, k])).collect::<Vec<_>>(),
             "cas_weak_fail": self.cas_weak_fail,
         })
@@ -433,6 +468,7 @@ impl PoolScn {
                         .collect::<Option<Vec<_>>>()?,
                     helper_caller: b["helper_caller"].as_bool().unwrap_or(false),
                     payload_bomb: b.get("payload_bomb").and_then(|x| x.as_bool()).unwrap_or(false),
+                    lane: b.get("lane").and_then(|x| x.as_u64()).unwrap_or(0) as u8,
                 })
             })
             .collect::<Option<Vec<_>>>()?;
@@ -446,7 +482,8 @@ impl PoolScn {
             .and_then(|x| x.as_array())
             .map(|a| a.iter().filter_map(|x| x.as_u64().map(|x| x as u32)).collect())
             .unwrap_or_default();
-        Some(PoolScn { broadcasts, spurious_parks, cas_weak_fail })
+        let lanes = v.get("lanes").and_then(|x| x.as_u64()).unwrap_or(1).max(1) as u8;
+        Some(PoolScn { broadcasts, lanes, spurious_parks, cas_weak_fail })
     }
 
     /// Shape key for the distinctness count.
@@ -454,7 +491,7 @@ impl PoolScn {
         let mut h = dsim::event::Fnv::default();
         for b in &self.broadcasts {
             h.u64(b.n as u64);
-            h.u64(b.api as u64 | (b.helper_caller as u64) << 4 | (b.payload_bomb as u64) << 5);
+            h.u64(b.api as u64 | (b.helper_caller as u64) << 4 | (b.payload_bomb as u64) << 5 | (b.lane as u64) << 8);
             for p in &b.panics {
                 h.u64(*p as u64 + 1);
             }
@@ -504,7 +541,30 @@ impl PoolScn {
                 // between), the way the sampling loop reuses `raw_samples`:
                 // a slot that `par_extend` fails to reset shows a stale value.
                 let reused: Arc<Mutex<Vec<Option<Res>>>> = Arc::new(Mutex::new(Vec::new()));
+                if scn.lanes > 1 {
+                    // Concurrent callers: one thread per lane, each with its
+                    // own result buffer, all started before any is joined.
+                    let handles: Vec<_> = (0..scn.lanes)
+                        .map(|lane| {
+                            let (pool2, scn2, out3) = (pool.clone(), scn.clone(), out2.clone());
+                            dsim::shim::thread::spawn(move || {
+                                let reused: Mutex<Vec<Option<Res>>> = Mutex::new(Vec::new());
+                                for j in 0..scn2.broadcasts.len() {
+                                    if scn2.broadcasts[j].lane == lane {
+                                        one_broadcast(&pool2, &scn2, j, &out3, &reused);
+                                    }
+                                }
+                            })
+                        })
+                        .collect();
+                    for h in handles {
+                        let _ = h.join();
+                    }
+                }
                 for j in 0..scn.broadcasts.len() {
+                    if scn.lanes > 1 {
+                        break;
+                    }
                     let (pool2, scn2, out3, reused2) = (pool.clone(), scn.clone(), out2.clone(), reused.clone());
                     let one = move || one_broadcast(&pool2, &scn2, j, &out3, &reused2);
                     if scn.broadcasts[j].helper_caller {
@@ -534,6 +594,7 @@ impl PoolScn {
             if self.broadcasts.len() > 1 {
                 let mut s = self.clone();
                 s.broadcasts.remove(j);
+                s.normalise_lanes();
                 c.push(s);
             }
         }
@@ -541,6 +602,25 @@ impl PoolScn {
             let mut s = self.clone();
             s.cas_weak_fail.clear();
             c.push(s);
+        }
+        if self.lanes > 1 {
+            // One caller after the other instead of concurrent callers.
+            let mut s = self.clone();
+            s.lanes = 1;
+            s.broadcasts.iter_mut().for_each(|b| b.lane = 0);
+            c.push(s);
+            // Merge the last lane into the first.
+            if self.lanes > 2 {
+                let mut s = self.clone();
+                s.lanes -= 1;
+                let last = s.lanes;
+                s.broadcasts.iter_mut().for_each(|b| {
+                    if b.lane == last {
+                        b.lane = 0
+                    }
+                });
+                c.push(s);
+            }
         }
         // Drop a fault.
         for f in 0..self.spurious_parks.len() {
@@ -696,6 +776,14 @@ pub fn check_c06(scn: &PoolScn, r: &RunResult, out: &PoolOutcome) -> Vec<Violati
                     "aux_on_caller",
                     format!("broadcast {j}: index {i} ran on the calling thread"),
                 ));
+            } else if i != 0 && wins.iter().any(|w2| w2.begin != u32::MAX && w2.caller == be.tid) {
+                v.push(Violation::new(
+                    "aux_on_caller",
+                    format!(
+                        "broadcast {j}: index {i} ran on sim thread {}, which is itself a caller of the pool, not a pooled thread",
+                        be.tid
+                    ),
+                ));
             }
             for i2 in 0..i {
                 if i2 != 0 && begins[i2].len() == 1 && begins[i2][0].tid == be.tid && i != 0 {
@@ -793,6 +881,25 @@ pub fn check_c06(scn: &PoolScn, r: &RunResult, out: &PoolOutcome) -> Vec<Violati
                     })
             })
             .count();
+        if scn.lanes > 1 {
+            // Concurrent callers: which broadcasts preceded this one is
+            // decided by the schedule. What is fixed: the pool serves this
+            // broadcast with at least n_j workers and never holds more than
+            // the largest request of the whole history.
+            let overall = scn.max_n();
+            if let Some(&aux) = out.aux_counts.get(j) {
+                if aux != usize::MAX && (aux < b.n || aux > overall) {
+                    v.push(Violation::new(
+                        "spawn_conservation",
+                        format!(
+                            "after broadcast {j} (n={}): pool holds {aux} workers, expected between {} and {overall}",
+                            b.n, b.n
+                        ),
+                    ));
+                }
+            }
+            continue;
+        }
         if spawned != max_n_so_far {
             v.push(Violation::new(
                 "spawn_conservation",
@@ -808,6 +915,31 @@ pub fn check_c06(scn: &PoolScn, r: &RunResult, out: &PoolOutcome) -> Vec<Violati
                     format!("after broadcast {j}: pool holds {aux} workers, expected {max_n_so_far}"),
                 ));
             }
+        }
+    }
+    if scn.lanes > 1 && completed {
+        // Created only when a broadcast needs more than exist: in total
+        // exactly the largest request.
+        let worker_spawns = ev
+            .iter()
+            .filter(|e| {
+                matches!(e.kind, Ev::Spawn { .. })
+                    && wins.iter().any(|w2| {
+                        w2.begin != u32::MAX
+                            && e.seq > w2.begin
+                            && w2.ret.map_or(true, |r2| e.seq < r2)
+                            && e.tid == w2.caller
+                    })
+            })
+            .count();
+        if worker_spawns != scn.max_n() {
+            v.push(Violation::new(
+                "spawn_conservation",
+                format!(
+                    "{worker_spawns} worker threads were created over the whole history, expected max(n_j) = {}",
+                    scn.max_n()
+                ),
+            ));
         }
     }
     v.dedup();
@@ -972,6 +1104,42 @@ pub fn probes(scn: &PoolScn, r: &RunResult) -> Vec<&'static str> {
     if scn.broadcasts.iter().any(|b| b.helper_caller) {
         hits.push("pool_used_by_another_thread");
     }
+    if scn.lanes > 1 {
+        hits.push("concurrent_callers");
+        // Two broadcasts in progress at the same time.
+        let overlap = wins.iter().enumerate().any(|(a, wa)| {
+            wins.iter().enumerate().any(|(b2, wb)| {
+                a != b2
+                    && wa.begin != u32::MAX
+                    && wb.begin != u32::MAX
+                    && wa.begin < wb.begin
+                    && wa.ret.map_or(true, |r| wb.begin < r)
+            })
+        });
+        if overlap {
+            hits.push("broadcasts_in_progress_at_the_same_time");
+        }
+        // A caller's task reached a worker while that worker's previous
+        // broadcast was still in progress (the worker served two callers
+        // back to back).
+        let back_to_back = wins.iter().enumerate().any(|(a, wa)| {
+            let Some(ra) = wa.ret else { return false };
+            ev.iter().any(|e| {
+                e.seq > wa.begin
+                    && e.seq < ra
+                    && matches!(e.kind, Ev::User(UserEv::TaskBegin { j, i }) if j as usize != a && i > 0)
+                    && ev.iter().any(|e2| {
+                        e2.tid == e.tid
+                            && e2.seq < e.seq
+                            && e2.seq > wa.begin
+                            && matches!(e2.kind, Ev::User(UserEv::TaskBegin { j, .. }) if j as usize == a)
+                    })
+            })
+        });
+        if back_to_back {
+            hits.push("worker_served_second_caller_before_first_returned");
+        }
+    }
     // Reuse after shrink: a broadcast with fewer threads than exist.
     let mut mx = 0;
     for b in &scn.broadcasts {
@@ -1005,7 +1173,7 @@ impl crate::batch::Case for PoolScn {
         PoolScn::est_len(self)
     }
     fn max_threads(&self) -> usize {
-        self.max_n() + 1 + self.broadcasts.iter().filter(|b| b.helper_caller).count()
+        self.max_n() + 1 + self.broadcasts.iter().filter(|b| b.helper_caller).count() + if self.lanes > 1 { self.lanes as usize } else { 0 }
     }
     fn run_config(&self, seed: u64, strategy: StrategySpec) -> RunConfig {
         PoolScn::run_config(self, seed, strategy)
